@@ -12,11 +12,11 @@ TECH = 'CBMC 6.11 code contracts (goto-instrument --dfcc) on functions extracted
 P = {
  'C01': ('Proof (contracts, all inputs) of the per-edge kernels the region semantics rests on: IsContributingClosed == boundary test of OP(cliptype, FILLED(fillrule, w_subj), FILLED(fillrule, w_clip)) for all 5x4 combinations and all winding numbers; the winding-count update of IntersectEdges preserves the face-winding representation; AddNewIntersectNode keeps the vertex in the scanbeam and on an edge; SetWindCountForClosedPathEdge (bounded AEL) establishes the representation; ring surgery (AddOutPt, JoinOutrecPaths, AddLocalMaxPoly, SwapOutrecs, DuplicateOp) keeps the OutPt rings consistent; UpdateEdgeIntoAEL advances an edge to the next vertex in its winding direction and schedules a scanline at its top; the join pairing is maintained by Split/CheckJoinLeft/CheckJoinRight; IsValidAelOrder orders edges that are apart by x alone; bounded DoTopOfScanbeam and InsertLeftEdge; the Paths64 wrappers BooleanOp/Union always run the operation (no shortcut on empty clips); bounded BuildIntersectList (one node for exactly the pairs that change order in a scanbeam), ProcessIntersectList (only AEL neighbours are intersected, AEL ordered afterwards, node search stays in bounds), DoMaxima, InsertLocalMinimaIntoAEL (one closed minimum) and DoHorizontal (single horizontal); ClipperBase::ExecuteInternal phase order per scanbeam (loop contract) and DoIntersections; IntersectEdges preserves "hot iff the result region differs on the two sides" for every clip type, fill rule and winding number.',
          ['AEL ordering, intersection ordering, horizontals, ring assembly, intersection-point accuracy (both precision builds): invariants over unbounded linked structures / floating point'], '5 C01'),
- 'C02': ('Proof / bounded proof of necessary conditions on the functions the rectilinear mechanism consists of: TopX returns the edge\'s own x for a vertical edge at every y and the end points exactly (so scanline crossings of axis-parallel input are input coordinates); TrimHorz keeps a horizontal edge\'s top on an input vertex of its own line and never passes a maximum, ResetHorzDirection spans the sweep interval by curr_x and top.x, UpdateHorzSegment builds maximal runs on one line with a single claim per left end (bounded); DoHorizontal crosses only immediate neighbours at (x of the crossed edge, y of the horizontal), exactly the edges inside its span (bounded); CheckJoinLeft/CheckJoinRight/Split keep the join pairing; ProcessHorzJoins splices / splits rings without losing or duplicating a vertex (bounded); IsValidAelOrder orders edges that are apart by x alone; CleanCollinear leaves no removable vertex (bounded, abstract geometry).',
+ 'C02': ('Proof / bounded proof of necessary conditions on the functions the rectilinear mechanism consists of: TopX returns the edge\'s own x for a vertical edge at every y and the end points exactly (so scanline crossings of axis-parallel input are input coordinates); TrimHorz keeps a horizontal edge\'s top on an input vertex of its own line and never passes a maximum, ResetHorzDirection spans the sweep interval by curr_x and top.x, UpdateHorzSegment builds maximal runs on one line with a single claim per left end (bounded); DoHorizontal crosses only immediate neighbours at (x of the crossed edge, y of the horizontal), exactly the edges inside its span (bounded); CheckJoinLeft/CheckJoinRight/Split keep the join pairing; ProcessHorzJoins splices / splits rings without losing or duplicating a vertex (bounded); IsValidAelOrder orders edges that are apart by x alone; CleanCollinear leaves no removable vertex (bounded, abstract geometry); GetLastOp is the vertex the edge last added; the horizontal segment list is cleared per scanbeam.',
          ['exactness of the solution as a whole (per-cell coverage, exact area, coordinates taken from input coordinates): consecutive horizontals / open paths in DoHorizontal, ConvertHorzSegsToJoins and the sweep invariants over the unbounded AEL and OutPt rings are not under contract'], '5 C02'),
  'C03': ('Proof of the structural predicates (PtsReallyClose, IsVerySmallTriangle, IsValidClosedPath) and of DoSplitOp (the splice creates no equal neighbours; loop-free, rings of 4/5/6); bounded checks of BuildPath64 (>=3 vertices, no equal neighbours incl. last/first) and CleanCollinear (no removable vertex left, over abstract geometry).',
          ['FixSelfIntersects loop, bounding-box clause, all geometric clauses (spikes beyond CleanCollinear, crossings, orientation vs nesting, Union idempotence)'], '5 C03'),
- 'C04': ('Proof (loop contracts) that BuildPaths64/BuildTree64/BuildPathsD/BuildTreeD visit every OutRec of the final list exactly once and build every path through the same callee with the same arguments in the paths and tree variants; CheckBounds call trace; IsHole <=> even non-zero Level; bounded Path1InsidePath2 vote (boundary midpoint counts as inside), RecursiveCheckOwners (first qualifying tentative owner, child of its node or of the root), SetOwner acyclicity and CheckSplitOwner progress.',
+ 'C04': ('Proof (loop contracts) that BuildPaths64/BuildTree64/BuildPathsD/BuildTreeD visit every OutRec of the final list exactly once and build every path through the same callee with the same arguments in the paths and tree variants; CheckBounds call trace; IsHole <=> even non-zero Level; bounded Path1InsidePath2 vote (boundary midpoint counts as inside), bounded PointInOpPolygon vs the exact even-odd oracle, RecursiveCheckOwners (first qualifying tentative owner, child of its node or of the root), SetOwner acyclicity and CheckSplitOwner progress.',
          ['nesting correctness of the owner search as a whole (see finding F14 in DESIGN.md), area equality'], '5 C04'),
  'C05': ("Proof of IsContributingOpen == the statement's inside/outside rule per clip type and fill rule; the builders hand open OutRecs to the open solution with isOpen=true in both variants; bounded SetWindCountForOpenPathEdge and AddPaths_ open end flags; IntersectEdges keeps an open edge hot exactly while the face it runs through makes it contribute (all clip types, fill rules, winding numbers); bounded InsertLocalMinimaIntoAEL / DoMaxima at open ends.",
          ['where pieces are cut, lengths, tolerance; closed result unchanged by open subjects'], '5 C05'),
